@@ -46,6 +46,14 @@ pub fn cases(thorough: bool) -> Vec<ECase> {
         let streams: Vec<StreamPlan> = (0..4).map(|i| sp(if i % 2 == 0 { Dir::Uni } else { Dir::Bi }, 300 + i * 50, 200)).collect();
         add(format!("max_streams={l}"), &|c| { c.server.max_bidi = Some(l); c.server.max_uni = Some(l); }, Plan { await_response: true, ..plan(streams.clone()) }, Plan { echo_len: Some(100), ..Default::default() }, vec![], (6, 30));
     }
+    // vectored writes (write_chunks with three chunks per call: each chunk fits where the sum may not)
+    for (name, f) in [
+        ("vectored/stream_window=2000", Box::new(|c: &mut PairCfg| c.server.stream_recv_window = Some(2000)) as Box<dyn Fn(&mut PairCfg)>),
+        ("vectored/conn_window=2500", Box::new(|c: &mut PairCfg| c.server.recv_window = Some(2500))),
+        ("vectored/send_window=2000", Box::new(|c: &mut PairCfg| c.client.send_window = Some(2000))),
+    ] {
+        add(name.into(), &*f, Plan { vectored: true, audit: true, ..plan(vec![sp(Dir::Uni, 9000, 2700), sp(Dir::Bi, 5000, 2400)]) }, plan(vec![]), vec![], (6, 30));
+    }
     // run-time changes
     let big = plan(vec![sp(Dir::Uni, 30_000, 4000), sp(Dir::Uni, 9_000, 1000)]);
     add("recvwin-shrink@18".into(), &|c| { c.server.recv_window = Some(8000); c.server.stream_recv_window = Some(4000); }, big.clone(), plan(vec![]), vec![(18, Op::SetRecvWindow(SERVER, 1500))], (10, 34));
